@@ -123,6 +123,9 @@ def step(w, ri, tg):
         src = impl.build(impl.T("creator", None, [impl.T("individualName", None, [impl.T("surName", "x")])], [["id", "c1"]]))
         dst = impl.build(impl.T("contact", None, [impl.T("references", "c1")]))
         ds = Node("dataset"); ds.add_child(src); ds.add_child(dst)
+        if rng.random() < 0.4:
+            # a references node that has nodes below it (a stray element in an imported document): expansion discards the whole subtree
+            stray = Node("zzStray", content="x"); dst.children[0].add_child(stray); stray.add_child(Node("zzDeeper"))
         w.add_tree(ds)
         ref = dst.children[0]
         before = set(Node.store.keys())
@@ -182,7 +185,7 @@ def run(ctx):
         hist = []
         for s in range(L):
             try:
-                k = step(w, ri, tg)
+                k = impl.limited(step, w, ri, tg)
             except Exception as e:
                 import traceback
                 fails.append({"case": {"history": hist}, "what": f"operation raised {type(e).__name__}: {e} :: " + traceback.format_exc()[-600:]})
@@ -198,6 +201,27 @@ def run(ctx):
         metas.append((hist, {k: w.tags.get(id(n)) for k, n in Node.store.items()}))
         if len(samples) < 3:
             samples.append({"history": hist, "registered": len(Node.store)})
+    # copies are new nodes whatever the registry says about their originals: a copy of a tree in which some node's entry was dropped
+    # (delete_node_instance(id, children=False) on a node that stays in its tree) registers every node of the copy
+    for i in range(40 if ctx.tier == "quick" else 600):
+        impl.reset()
+        t = tg.valid_tree(rng.choice(["creator", "keywordSet", "access"]), rng, maxdepth=2)
+        root = impl.build(t)
+        nodes = list(walk(root))
+        victims = [n for n in nodes if rng.random() < 0.4]
+        for n in victims:
+            Node.delete_node_instance(n.id, children=False)
+        cp = root.copy()
+        total += 1
+        bad = [n.name for n in walk(cp) if Node.get_node_instance(n.id) is not n]
+        if bad:
+            fails.append({"case": {"tree": t, "unregistered_before_copy": [n.name for n in victims]},
+                          "what": f"nodes {bad[:4]} of a fresh copy are not retrievable by their ids (the original had dropped registry entries)"})
+            break
+        back = [n.name for n in victims if n.id in Node.store]
+        if back:
+            fails.append({"case": {"tree": t}, "what": f"copying re-registered deleted nodes {back[:4]} of the original"})
+            break
     # ids-only observer: nodes that nothing but the registry refers to must stay retrievable until deleted
     import gc
     impl.reset()
